@@ -598,6 +598,58 @@ func (s *seq) wantedScenario() {
 	}
 }
 
+// readmitScenario: a chain is admitted, looked up (only the chain itself is promoted), its prefixes
+// are pushed out by a flood and asked for (placeholders), then the same chain is broadcast and
+// admitted again: every prefix must be retrievable again ("after a node admits a chain broadcast
+// ... that chain and every prefix of it can be retrieved").
+func (s *seq) readmitScenario() {
+	inst := s.admissibleInstance()
+	s.cnt["scenario_readmit"]++
+	ch := s.g.grow(s.rootFor(inst), 2+s.rng.Intn(5), 0, true)
+	if !s.deliver(inst, ch) {
+		return
+	}
+	s.lookup(inst, ch.Key(), "readmit-promote")
+	s.flood(inst, (2+s.rng.Intn(3))*s.p.CapD)
+	if s.abort != "" {
+		return
+	}
+	keys := prefixKeys(ch, s.rng)
+	for i := 0; i < len(keys)-1; i++ {
+		if s.rng.Intn(3) > 0 {
+			s.lookup(inst, keys[i], "readmit-ask-prefix")
+		}
+	}
+	if inst == s.cur && s.input != nil && !ch.Base().Equal(s.input.Base()) {
+		return
+	}
+	if s.deliver(inst, ch) {
+		s.cnt["scenario_readmit_completed"]++
+		s.allPrefixes(inst, ch, "every-prefix-after-readmission")
+	}
+}
+
+// lateOwnScenario: the node re-broadcasts one of its chains for an instance it has already left and
+// pruned (a late periodic re-broadcast). The validator refuses the self-delivery, so only the
+// own-broadcast caching happens for that instance; a later prune must still remove it.
+func (s *seq) lateOwnScenario() {
+	if s.cur == 0 {
+		return
+	}
+	s.cnt["scenario_late_own"]++
+	s.prune(s.cur)
+	if s.abort != "" {
+		return
+	}
+	i := s.cur - 1
+	ch := s.g.grow(s.g.base(i), 1+s.rng.Intn(4), 0, true)
+	s.own(i, ch)
+	if s.abort != "" {
+		return
+	}
+	s.prune(s.cur + uint64(s.rng.Intn(2)))
+}
+
 func (s *seq) allPrefixes(inst uint64, chain *gpbft.ECChain, why string) {
 	keys := prefixKeys(chain, s.rng)
 	idx := s.rng.Perm(len(keys))
@@ -696,8 +748,10 @@ func (s *seq) randomOp() {
 		}
 	case x < 86:
 		s.flood(s.admissibleInstance(), (2+s.rng.Intn(4))*s.p.CapD)
-	case x < 94:
+	case x < 92:
 		s.wantedScenario()
+	case x < 94:
+		s.readmitScenario()
 	case x < 97: // every prefix of some admitted chain
 		inst := s.admissibleInstance()
 		if cs := s.chains[inst]; len(cs) > 0 {
@@ -829,6 +883,9 @@ func runSequence(idx int, seed int64) (res seqResult) {
 		}
 		r.setProgress(s.cur, s.input)
 		s.logf("progress cur=%d input_known=%v", s.cur, s.input != nil)
+		if step > 0 && rng.Intn(3) == 0 {
+			s.lateOwnScenario()
+		}
 		n := 10 + rng.Intn(30)
 		for j := 0; j < n && s.abort == ""; j++ {
 			s.randomOp()
